@@ -183,6 +183,39 @@ def check_sa_edit(setname, key, edit):
     names = list(sa.keys)
     undo = []
     try:
+        if edit == "private":
+            # the caller builds an entry of its own FROM the shipped entry's table object (OpCode documents "serviceaction: a Enum")
+            # and edits only its own entry: if that construction is accepted at all, the shipped entry stays as it is
+            from pyscsi.pyscsi.scsi_opcode import OpCode
+            if not names:
+                return []
+            try:
+                mine = OpCode("QUIRK_" + key, op.value, sa)
+            except Exception:   # noqa: BLE001 - refusing an Enum here is fine
+                return []
+            n0, v0 = names[0], getattr(sa, names[0])
+            try:
+                mine.serviceaction.remove(n0)
+                mine.serviceaction.add(n0, (v0 ^ 0x01) & 0x1F)
+                mine.serviceaction.add("VENDOR_SPECIFIC_VERIF", 0x1E)
+            except Exception:   # noqa: BLE001
+                pass
+            after = _snapshot()
+            out = []
+            for k2, v2 in before.items():
+                if after.get(k2) != v2:
+                    out.append(("sa_edit/shipped_entry_changed/private", "an entry of the caller's own built from %s.%s.serviceaction and edited changed the shipped %s.%s: service actions %r, before %r"
+                                % (setname, key, k2[0], k2[1], dict(after.get(k2, (None, ()))[1]), dict(v2[1]))))
+                    break
+            if out:
+                # put the shipped table back (the object is shared)
+                try:
+                    sa.remove("VENDOR_SPECIFIC_VERIF")
+                    sa.remove(n0)
+                    sa.add(n0, v0)
+                except Exception:   # noqa: BLE001
+                    pass
+            return out
         if edit == "vendor":
             sa.add("VENDOR_SPECIFIC_VERIF", 0x1F)
             undo.append(lambda: sa.remove("VENDOR_SPECIFIC_VERIF"))
@@ -376,7 +409,7 @@ def run_partition(part, tier, seed):
     if part[0] == "sa_edit":
         for s_ in SETS:
             for key in sets[s_].keys:
-                for edit in ("vendor", "renumber", "remove"):
+                for edit in ("vendor", "renumber", "remove", "private"):
                     do(["sa_edit", s_, key, edit])
                     if any(k.startswith("sa_edit/not_restorable") for k in acc.viol):
                         return acc
